@@ -32,13 +32,13 @@ TOKENS = ["mov", "clr", "br", "sob", "emt", "nop", ".word", ".byte", ".blkb", ".
 assert len(TOKENS) == 46
 
 CONSUMERS = [
-    "clr _", "mov _, r0", "mov r0, _", "mov _, _", "jsr _, x", "jsr r1, _", "xor _, r1", "xor r1, _", "mul _, r1", "mul r1, _", "br _", "sob r0, _",
-    "sob _, .", "emt _", "trap _", "spl _", "mark _", "rts _", "fadd _", "ldf _, ac0", "ldf ac0, _", "stf _, (r0)", "stf ac1, _", "tstf _",
-    "stexp ac0, _", "ldexp _, ac1", "push _", "pop _", "call _", "nop _", "ret _",
-    ".byte _", ".word _", ".dword _", ".blkb _", ".blkw _", ".align _", ".repeat _ { nop }", ".link _", ". = _", "x = _", "x == _",
-    ".ascii _", ".asciz _", ".rad50 _", ".include _", "insert_file _", "make_bin _", "make_wav _, _", "make_raw _", ".extern _", ".even _", ".end _",
-    ".error _", ".list _", ".title _", ".ident _", ".page _", ".once _",
-    "_", "_, _", "lbl: _", "_:", "_ = 5", ".repeat 2 { _ }", ".word 1, _, 2",
+    "clr §", "mov §, r0", "mov r0, §", "mov §, §", "jsr §, x", "jsr r1, §", "xor §, r1", "xor r1, §", "mul §, r1", "mul r1, §", "br §", "sob r0, §",
+    "sob §, .", "emt §", "trap §", "spl §", "mark §", "rts §", "fadd §", "ldf §, ac0", "ldf ac0, §", "stf §, (r0)", "stf ac1, §", "tstf §",
+    "stexp ac0, §", "ldexp §, ac1", "push §", "pop §", "call §", "nop §", "ret §",
+    ".byte §", ".word §", ".dword §", ".blkb §", ".blkw §", ".align §", ".repeat § { nop }", ".link §", ". = §", "x = §", "x == §",
+    ".ascii §", ".asciz §", ".rad50 §", ".include §", "insert_file §", "make_bin §", "make_wav §, §", "make_raw §", ".extern §", ".even §", ".end §",
+    ".error §", ".list §", ".title §", ".ident §", ".page §", ".once §",
+    "§", "§, §", "lbl: §", "§:", "§ = 5", ".repeat 2 { § }", ".word 1, §, 2",
 ]
 SHAPES = [
     # literals
@@ -210,7 +210,7 @@ def check(case, r, tier):
             if size_consumer and s in BIG_SHAPES:
                 continue   # large finite work (a 4 GB fill, 4e9 iterations) is not non-termination: resource guard
             for tail in TAILS:
-                text = c.replace("_", s) + tail + "\n"
+                text = c.replace("§", s) + tail + "\n"
                 judge(text, r, text, True, tree=TREE)
         return
     if k == "graphs":
@@ -263,7 +263,7 @@ def check(case, r, tier):
         allp = [(c, s) for c in CONSUMERS for s in SHAPES]
         for start in range(case["start"], min(case["start"] + 60 * 40, len(allp)), 60):
             chunk = allp[start:start + 60]
-            text = "\n".join(c.replace("_", s) for c, s in chunk) + "\n"
+            text = "\n".join(c.replace("§", s) for c, s in chunk) + "\n"
             judge(text, r, ("long", start), True, tree=TREE)
         return
     if k == "faults":
